@@ -659,9 +659,15 @@ func runR128(c *Ctx) {
 		}
 		ia, ok := base.(*ssa.IndexAddr)
 		if !ok {
+			// `backend := &ba.backends[index]` taken outside a function literal and captured by it
+			if org := captureOrigin(g, base); org != nil {
+				ia, ok = org.(*ssa.IndexAddr)
+			}
+		}
+		if !ok {
 			return nil, false
 		}
-		if recvFieldLoadName(g, ia.X) != "backends" {
+		if recvFieldLoadName(ia.Parent(), ia.X) != "backends" && recvFieldLoadName(g, ia.X) != "backends" {
 			return nil, false
 		}
 		return ia.Index, true
